@@ -254,7 +254,7 @@ var Faults = []string{
 	"dup-operation-id", "path-param-missing", "path-param-extra", "path-param-not-required", "path-param-dup-placeholder",
 	"dup-param-inline", "dup-param-via-ref", "dup-param-two-refs", "two-body-params", "two-body-params-ref", "body-and-formdata",
 	"array-no-items-param", "array-no-items-header", "array-no-items-nested-items", "array-no-items-body-schema", "array-no-items-response-schema",
-	"required-undefined-property", "unresolvable-ref-definition", "unresolvable-ref-parameter", "unresolvable-ref-response",
+	"required-undefined-property", "required-undefined-beside-scalar-additionalProperties", "unresolvable-ref-definition", "unresolvable-ref-parameter", "unresolvable-ref-response",
 	"dup-inherited-property", "circular-ancestry-direct", "circular-ancestry-indirect",
 	"overlapping-paths", "invalid-pattern-param", "invalid-pattern-header", "invalid-pattern-schema", "invalid-pattern-items",
 	"missing-paths", "empty-placeholder",
@@ -473,6 +473,11 @@ func (g *SpecGen) Apply(fault string) (applied bool, strictOnly bool) {
 			}
 		}
 		return false, false
+	case "required-undefined-beside-scalar-additionalProperties":
+		// a schema-valued additionalProperties which does not itself define the name does not define it either
+		defs["Loose"+g.Tag] = map[string]any{"type": "object", "properties": map[string]any{"p": map[string]any{"type": "string"}},
+			"additionalProperties": map[string]any{"type": g.R.Pick("string", "integer", "boolean")}, "required": []any{"nowhere" + g.Tag}}
+		return true, false
 	case "unresolvable-ref-definition":
 		d := defs[g.defNames[0]].(map[string]any)
 		props, ok := d["properties"].(map[string]any)
